@@ -24,6 +24,14 @@ def setup(ctx=None, warm=True):
     return lw
 
 
+def too_big(c, max_total_modes=12, max_herald_photons=4) -> bool:
+    """Circuits whose full output space would take the emulator (and the reference) minutes are skipped and counted."""
+    try:
+        return c.U_full.shape[0] > max_total_modes or sum(c.heralds["input"].values()) > max_herald_photons
+    except Exception:  # noqa: BLE001
+        return True
+
+
 def drain_into(ctx, case, own_kinds=None):
     """Move monitor observations for this property into ctx; count the others."""
     for ob in circmon.drain():
